@@ -529,6 +529,7 @@ def rule_f(ctx, ix):
             name = recs['depth'].value.id if isinstance(recs['depth'].value, ast.Name) else None
             if name:
                 alts = [st.value for st in ast.walk(lp) if isinstance(st, ast.Assign) and unparse(st.targets[0]) == name] or [ce]
+        alts = [x for a in alts for x in ([a.body, a.orelse] if isinstance(a, ast.IfExp) else [a])]
         ok = False
         for a in alts:
             a = expand_locals(d.node, a)
